@@ -17,7 +17,7 @@
    random draw u = un/ud in [0,1) is an oracle input.  `time.Duration(float)` truncates: Z.div on
    non-negative values. *)
 From Verif Require Import Common.Base.
-Open Scope Z_scope.
+Local Open Scope Z_scope.
 
 (* ---- errors: a linear chain of wrappers, outermost first, around an opaque base error -------- *)
 Inductive signal := SLogs | STraces | SMetrics.
